@@ -1,4 +1,5 @@
 import ScVerif.C10.Sys
+import ScVerif.C10.PipeInv
 /-! Invariants of the composed model along every schedule (helper lemmas). -/
 namespace ScVerif.C10
 
@@ -6,20 +7,26 @@ structure SInv (s : Sys) : Prop where
   reach : Reachable s.bus
   watcher : WatcherInv s.bus
   link : Link s
+  ex : ∀ l, (s.pipe l).ExOrder
 
 theorem sinv_init (todo : Nat → Nat) (pipes : Nat → PConfig) (hf : ∀ l, (pipes l).Fresh) :
     SInv ⟨init todo, pipes⟩ := by
-  refine ⟨⟨todo, [], rfl⟩, watcherInv_init todo, ?_⟩
+  refine ⟨⟨todo, [], rfl⟩, watcherInv_init todo, ?_, fun l h => by rw [(hf l).2.2.2.1] at h; cases h⟩
   constructor <;> intro l
   · simp [init, (hf l).1]
   · simp [init, (hf l).2.1]
   · simp [init]
+  · simp [init]
 
 theorem sinv_step {pl : Ev → Msg} {s s' : Sys} {m : SMove} (h : SInv s) (hs : sstep pl s m = some s') : SInv s' := by
   obtain ⟨sched, hb⟩ := sstep_bus_run hs
-  refine ⟨?_, ?_, link_step h.reach.inv.lock h.watcher h.link hs⟩
+  refine ⟨?_, ?_, link_step h.reach.inv.lock h.watcher h.link hs, ?_⟩
   · rw [hb]; exact h.reach.run sched
   · rw [hb]; exact watcherInv_run sched h.reach.inv h.watcher
+  · intro l
+    rcases sstep_pipe hs l with he | ⟨pm, hp⟩
+    · rw [he]; exact h.ex l
+    · exact exOrder_step (h.ex l) hp
 
 theorem sinv_run {pl : Ev → Msg} {s : Sys} (sched : List SMove) (h : SInv s) : SInv (srun pl s sched) := by
   induction sched generalizing s with
